@@ -12,7 +12,9 @@ import (
 
 	"github.com/chrislusf/seaweedfs/weed/pb/master_pb"
 	"github.com/chrislusf/seaweedfs/weed/sequence"
+	"github.com/chrislusf/seaweedfs/weed/storage"
 	"github.com/chrislusf/seaweedfs/weed/storage/needle"
+	"github.com/chrislusf/seaweedfs/weed/storage/super_block"
 	"github.com/chrislusf/seaweedfs/weed/topology"
 	"github.com/chrislusf/seaweedfs/weed/util/fla9"
 	"verifharness/hx"
@@ -126,8 +128,10 @@ type ecMsg struct {
 
 type nodeSt struct {
 	dc, rack, ip string
-	disks        []string // disk types of this server
+	disks        []string // disk types of this server (keys of the Join map)
+	extra        []string // disk types the server may report although they are not in the Join map
 	dn           *topology.DataNode
+	stale        *topology.DataNode // the object a finished stream still holds after UnRegisterDataNode
 }
 
 func (n *nodeSt) path() []string { return []string{n.dc, n.rack, n.ip + ":80"} }
@@ -220,8 +224,20 @@ func (h *hist) incEc(n *nodeSt, news, dels []ecMsg) {
 	h.record(fmt.Sprintf("IncEc %s %s %s", coqPath(n.path()), ns, ds), "incec")
 }
 
+// VolumeGrowth.grow: server.AddOrUpdateVolume(vi) on the chosen server
+func (h *hist) grow(n *nodeSt, v volMsg) {
+	vi := storage.VolumeInfo{Id: needle.VolumeId(v.id), Size: 0, ReadOnly: v.ro, DiskType: v.disk, Version: needle.CurrentVersion,
+		ReplicaPlacement: &super_block.ReplicaPlacement{}, Ttl: needle.EMPTY_TTL}
+	if v.remote {
+		vi.RemoteStorageName, vi.RemoteStorageKey = "s3", "k"
+	}
+	n.dn.AddOrUpdateVolume(vi)
+	h.record(fmt.Sprintf("Grow %s (%s)", coqPath(n.path()), coqVol(v.id, v.disk, v.remote, v.ro)), "grow")
+}
+
 func (h *hist) unregister(n *nodeSt) {
 	h.topo.UnRegisterDataNode(n.dn)
+	n.stale = n.dn
 	n.dn = nil
 	h.record(fmt.Sprintf("Unregister %s", coqPath(n.path())), "unregister")
 }
@@ -264,8 +280,11 @@ func randBits(r *hx.Rng) uint32 {
 	if r.Chance(1, 3) {
 		b &= uint32(r.Next())
 	}
-	if b == 0 {
+	if b == 0 && !r.Chance(1, 3) { // zero shard bits stay possible
 		b = 1 << uint(r.Intn(14))
+	}
+	if r.Chance(1, 25) {
+		b = 0
 	}
 	return b
 }
@@ -320,6 +339,56 @@ func witnesses(out *hx.Out) {
 		h.fullEc(n, []ecMsg{{1, "ssd", 3}})
 		h.emit("witness-k0")
 	}
+	// k=1: a volume re-reported on another disk type of the same server stays registered on both
+	{
+		h, n := newHist(out), n1()
+		h.join(n, map[string]uint32{"": 10, "ssd": 4})
+		h.fullVol(n, []volMsg{{1, "", false, false}})
+		h.fullVol(n, []volMsg{{1, "ssd", false, false}})
+		h.fullVol(n, []volMsg{{2, "", false, false}}) // omitting the id altogether cleans both up
+		h.emit("witness-k1")
+	}
+	// k=0 again: reported on another disk with UNCHANGED bits: stays registered on the old disk
+	{
+		h, n := newHist(out), n1()
+		h.join(n, map[string]uint32{"": 10, "ssd": 4})
+		h.fullEc(n, []ecMsg{{1, "", 1}})
+		h.fullEc(n, []ecMsg{{1, "ssd", 1}})
+		h.fullVol(n, []volMsg{{3, "", false, false}}) // later events keep the drift as it is
+		h.incEc(n, []ecMsg{{1, "", 6}}, nil)
+		h.emit("witness-k0")
+	}
+	// OUTSIDE the narrowed trigger of finding 0 (must be exact): an id listed twice on the disk it
+	// is registered on; an unregistered id listed once on each of two disks, then omitted
+	{
+		h, n := newHist(out), n1()
+		h.join(n, map[string]uint32{"": 10, "ssd": 4})
+		h.fullEc(n, []ecMsg{{1, "", 1}})
+		h.fullEc(n, []ecMsg{{1, "", 1}, {1, "", 3}})
+		h.fullEc(n, []ecMsg{{1, "", 3}, {2, "", 5}, {2, "ssd", 2}})
+		h.fullEc(n, []ecMsg{{1, "", 3}})
+		h.emit("outside-narrowed-k0")
+	}
+	// zero shard bits in full and incremental EC heartbeats; a disk type that is not in the Join map;
+	// re-Join of a live node; events on the object of an unregistered node; growth
+	{
+		h, n := newHist(out), n1()
+		h.join(n, map[string]uint32{"": 10})
+		h.fullEc(n, []ecMsg{{1, "", 0}})
+		h.incEc(n, []ecMsg{{2, "ssd", 0}}, []ecMsg{{1, "", 1}})
+		h.fullVol(n, []volMsg{{1, "ssd", true, false}})
+		h.grow(n, volMsg{2, "ssd", false, false})
+		h.grow(n, volMsg{1, "ssd", false, true})
+		h.join(n, map[string]uint32{"": 3, "ssd": 9})
+		h.unregister(n)
+		live := n.dn
+		n.dn = n.stale
+		h.fullVol(n, []volMsg{{5, "", false, false}})
+		h.fullEc(n, []ecMsg{{7, "", 3}})
+		n.dn = live
+		h.join(n, map[string]uint32{"ssd": 2})
+		h.emit("fixed-reach")
+	}
 }
 
 // ---------- random histories ----------
@@ -343,9 +412,41 @@ func randomHistory(r *hx.Rng, out *hx.Out) {
 		default:
 			n.disks = []string{"", "ssd"}
 		}
+		for _, d := range []string{"", "ssd"} {
+			in := false
+			for _, x := range n.disks {
+				if x == d || (x == "hdd" && d == "") {
+					in = true
+				}
+			}
+			if !in {
+				n.extra = append(n.extra, d)
+			}
+		}
+		// the same ip may appear in another rack (another data node object), never twice in one rack
+		if i > 0 && r.Chance(1, 4) {
+			o := nodes[r.Intn(len(nodes))]
+			clash := false
+			for _, x := range nodes {
+				if x.ip == o.ip && x.dc == n.dc && x.rack == n.rack {
+					clash = true
+				}
+			}
+			if !clash {
+				n.ip = o.ip
+			}
+		}
 		nodes = append(nodes, n)
 	}
-	diskOf := func(n *nodeSt, id uint32) string { return n.disks[int(id)%len(n.disks)] }
+	diskOf := func(n *nodeSt, id uint32) string {
+		if len(n.extra) > 0 && r.Chance(1, 10) {
+			return n.extra[r.Intn(len(n.extra))] // a disk type absent from the Join map
+		}
+		if dirty && r.Chance(1, 6) {
+			return n.disks[r.Intn(len(n.disks))] // not the usual disk of this id
+		}
+		return n.disks[int(id)%len(n.disks)]
+	}
 	genMax := func(n *nodeSt, fresh bool) map[string]uint32 {
 		m := map[string]uint32{}
 		for _, d := range n.disks {
@@ -366,20 +467,40 @@ func randomHistory(r *hx.Rng, out *hx.Out) {
 				m[d] = v
 			}
 		}
+		if !fresh && len(n.extra) > 0 && r.Chance(1, 10) {
+			m[n.extra[0]] = uint32(r.Range(1, 5)) // a max count for a disk type that was not in the Join map
+		}
 		return m
 	}
-	nops := r.Range(4, 13)
+	nops := r.Range(6, 16)
 	for len(h.ops) < nops {
 		n := nodes[r.Intn(len(nodes))]
+		if n.dn == nil && n.stale != nil && r.Chance(1, 3) {
+			// the finished stream's object still receives an event: the tree must not change
+			n.dn = n.stale
+			switch r.Intn(4) {
+			case 0:
+				h.fullVol(n, []volMsg{{uint32(r.Range(1, 7)), n.disks[0], r.Chance(1, 4), r.Chance(1, 4)}})
+			case 1:
+				h.incVol(n, []volMsg{{id: uint32(r.Range(1, 7)), disk: n.disks[0]}}, nil)
+			case 2:
+				h.fullEc(n, []ecMsg{{uint32(r.Range(10, 14)), n.disks[0], randBits(r)}})
+			default:
+				h.incEc(n, []ecMsg{{uint32(r.Range(10, 14)), n.disks[0], randBits(r)}}, nil)
+			}
+			n.dn = nil
+			h.out.Count("stale-object-event", 1)
+			continue
+		}
 		if n.dn == nil {
 			m := genMax(n, true)
 			h.join(n, m)
-			if r.Chance(3, 4) {
+			if r.Chance(1, 2) {
 				h.adjustMax(n, m) // SendHeartbeat adjusts right after creating the node
 			}
 			continue
 		}
-		switch k := r.Intn(20); {
+		switch k := r.Intn(24); {
 		case k < 3:
 			h.adjustMax(n, genMax(n, false))
 		case k < 7: // full volume heartbeat
@@ -442,7 +563,7 @@ func randomHistory(r *hx.Rng, out *hx.Out) {
 							e.bits = 1
 						}
 					}
-					if dirty && r.Chance(1, 12) {
+					if dirty && r.Chance(1, 6) {
 						e.disk = n.disks[r.Intn(len(n.disks))] // reported on another disk (finding 0)
 					}
 					es = append(es, e)
@@ -495,12 +616,16 @@ func randomHistory(r *hx.Rng, out *hx.Out) {
 				dels = append(dels, ecMsg{id, diskOf(n, id), randBits(r)}) // possibly not registered
 			}
 			h.incEc(n, news, dels)
-		default:
-			if r.Chance(1, 2) {
-				h.unregister(n)
-			} else {
-				h.adjustMax(n, genMax(n, false))
-			}
+		case k < 20:
+			h.unregister(n)
+		case k < 21:
+			h.adjustMax(n, genMax(n, false))
+		case k < 22: // re-Join of a live node: GetOrCreateDataNode returns the same object, maxs ignored
+			h.join(n, genMax(n, true))
+			h.out.Count("rejoin-live", 1)
+		default: // volume growth books the new volume at once
+			id := uint32(r.Range(1, 8))
+			h.grow(n, volMsg{id, diskOf(n, id), false, r.Chance(1, 8)})
 		}
 	}
 	kind := "clean"
@@ -514,7 +639,7 @@ func main() {
 	out := hx.Flags("C12", 150)
 	hx.Must(fla9.Set("alsologtostderr", "false"))
 	hx.Must(fla9.Set("v", "-1"))
-	out.Rule = "histories of 4-13 heartbeat events over 2-3 volume servers in dc1/r1, dc1/r2, dc2/r1 with disk types {\"\"}, {ssd}, {\"\",ssd} or {hdd,ssd}: join (GetOrCreateDataCenter/Rack/DataNode), AdjustMaxVolumeCounts, full and incremental volume heartbeats (volume ids 1-8, remote and read-only flags), full and incremental EC heartbeats (ids 10-14, 14-bit shard masks), UnRegisterDataNode and re-join; 60% 'clean' histories generated like a consistent volume server, 40% 'dirty' ones add stale/remote incremental deletes, several EC volumes changing at once, several max counts changing at once (all exact after the repairs) and duplicate or moved EC ids (finding 0); first 6 cases are fixed: the witnesses of the four repaired defects and two witnesses of finding 0; the tree (counters of every node, volumes and EC shards of every disk) is read through the hook after every event; non-trivial = some snapshot has a registered volume or shard; distinct = op list"
+	out.Rule = "histories of 6-16 events over 2-3 volume servers in dc1/r1, dc1/r2, dc2/r1 (the same ip may be a data node in two racks) with Join-map disk types {\"\"}, {ssd}, {\"\",ssd} or {hdd,ssd}; every server may also report the disk type missing from its Join map: join (GetOrCreateDataCenter/Rack/DataNode, also of a LIVE node), AdjustMaxVolumeCounts (also for a type not in the Join map), full and incremental volume heartbeats (ids 1-8, remote and read-only flags), volume growth (DataNode.AddOrUpdateVolume), full and incremental EC heartbeats (ids 10-14, 14-bit shard masks incl. 0), UnRegisterDataNode (8% of the events) and re-join, events sent to the object of an unregistered node (tree must not change); 60% 'clean' histories generated like a consistent volume server, 40% 'dirty' ones add stale/remote incremental deletes, several EC volumes / max counts changing at once (exact after the repairs), volumes re-reported on another disk (finding 1) and duplicate or moved EC ids (finding 0); first 10 cases are fixed: four repaired defects, three witnesses of finding 0, one of finding 1, one history outside the narrowed trigger of finding 0, one reach case; the tree (counters of every node, volumes and EC shards of every disk) is read through the hook after every event; non-trivial = some snapshot has a registered volume or shard; distinct = op list"
 	witnesses(out)
 	// Fork: consecutive seeds of hx.NewRng are one stream shifted by one draw
 	root := hx.NewRng(out.Seed).Fork()
